@@ -23,11 +23,38 @@ class Unmodelled(AnalysisError):
 _TABLE = {}
 
 
+class Term(tuple):
+    """Hash-consed term: identity is structural identity, so hashing and equality are O(1).
+
+    `_digest` is a structural digest (independent of construction order) used for deterministic sorting."""
+
+    def __hash__(self):
+        return id(self)
+
+    def __eq__(self, other):
+        return self is other
+
+    def __ne__(self, other):
+        return self is not other
+
+
+def _dig(x):
+    if isinstance(x, Term):
+        return x._digest
+    if isinstance(x, tuple):
+        return "(" + ",".join(_dig(e) for e in x) + ")"
+    return repr(x)
+
+
 def T(*parts):
-    t = _TABLE.get(parts)
+    key = tuple((("#", id(p)) if isinstance(p, Term) else p) for p in parts)
+    t = _TABLE.get(key)
     if t is None:
-        t = parts
-        _TABLE[parts] = t
+        import hashlib
+
+        t = Term(parts)
+        t._digest = hashlib.sha1("|".join(_dig(p) for p in parts).encode()).hexdigest()[:20]
+        _TABLE[key] = t
     return t
 
 
@@ -163,7 +190,7 @@ MODELLED = {"add", "subtract", "multiply", "divide", "negative", "positive", "ab
 
 
 def skey(x):
-    return repr(x)
+    return _dig(x)
 
 
 class Norm:
